@@ -154,8 +154,8 @@ impl SizeClassPool {
             buffer.clear();
             buffer.reserve(size.max(buffer_size));
 
-            // Update stats
-            if let Ok(mut stats) = self.stats.try_write() {
+            // Update stats (always: a skipped update would lose the allocation)
+            if let Ok(mut stats) = self.stats.write() {
                 stats.allocations += 1;
                 stats.bytes_allocated += size as u64;
                 stats.reuses += 1;
@@ -169,8 +169,8 @@ impl SizeClassPool {
         // Pool miss - allocate new buffer
         let buffer = BytesMut::with_capacity(size.max(buffer_size));
 
-        // Update stats
-        if let Ok(mut stats) = self.stats.try_write() {
+        // Update stats (always: a skipped update would lose the allocation)
+        if let Ok(mut stats) = self.stats.write() {
             stats.allocations += 1;
             stats.bytes_allocated += size as u64;
             stats.pool_misses += 1;
@@ -193,7 +193,7 @@ impl SizeClassPool {
             let new_size = self.current_size.fetch_add(1, Ordering::Relaxed) + 1;
 
             // Update max pool size stats
-            if let Ok(mut stats) = self.stats.try_write() {
+            if let Ok(mut stats) = self.stats.write() {
                 stats.pool_size = new_size;
                 stats.max_pool_size = stats.max_pool_size.max(new_size);
             }
@@ -205,15 +205,15 @@ impl SizeClassPool {
     fn stats(&self) -> PoolStats {
         let current_size = self.current_size.load(Ordering::Relaxed);
 
-        if let Ok(mut stats) = self.stats.try_write() {
-            stats.pool_size = current_size;
-            stats.clone()
-        } else if let Ok(stats) = self.stats.try_read() {
-            let mut stats_copy = stats.clone();
-            stats_copy.pool_size = current_size;
-            stats_copy
-        } else {
-            PoolStats::new()
+        // The critical sections of the statistics lock are a few additions:
+        // wait for it instead of answering with empty statistics.
+        match self.stats.read() {
+            Ok(stats) => {
+                let mut stats_copy = stats.clone();
+                stats_copy.pool_size = current_size;
+                stats_copy
+            }
+            Err(_) => PoolStats::new(),
         }
     }
 
